@@ -66,13 +66,15 @@ pub fn fixture() -> MithrilFixture {
 
 /// Stake distribution the chain shows during `epoch`: it changes at every epoch boundary so that a
 /// signer (or a reference) that pairs keys with the distribution of a neighbouring epoch is seen.
+/// The signer under test holds about three quarters of the stake, so that with the reference
+/// parameters (m >= 30, phi_f >= 0.8) it wins at least one lottery except with probability < 1e-15.
 pub fn stakes_during(fixture: &MithrilFixture, epoch: u64) -> Vec<SignerWithStake> {
     fixture
         .signers_with_stake()
         .into_iter()
         .enumerate()
         .map(|(i, mut s)| {
-            s.stake += 1_000 * (epoch % 7) * (i as u64 + 1);
+            s.stake = if i == ME { 10_000 + 500 * (epoch % 7) } else { 1_000 * i as u64 + 100 * (epoch % 5) };
             s
         })
         .collect()
